@@ -186,12 +186,12 @@ class C01(Check):
     budget = (80, 700)
 
     def cases(self, tier, seed):
-        n = 144 if tier == "quick" else 4000
+        n = 560 if tier == "quick" else 16000
         rng = np.random.default_rng([seed, 1])
         # stratum where the conversion scale -> angle decides the pruning: physical/comoving units at
         # very low and very high redshift on geometries with well separated or uneven patches
         k = 0
-        for rep in range(1 if tier == "quick" else 12):
+        for rep in range(2 if tier == "quick" else 25):
             for geom in ("clusters_far", "uneven_extent", "dense_vs_sparse"):
                 for zcls in ("lowz", "highz"):
                     for unit in ("kpc", "Mpc", "Mpc/h"):
@@ -221,6 +221,13 @@ class C01(Check):
         def bad(mech, detail):
             out.append(result(VIOLATED, mechanism=mech, detail=dict(case=case, **detail), nontrivial=False))
 
+        # separations beyond pi do not exist: a scale set that exceeds it at some bin centre is rejected by the
+        # library (documented ValueError) and is not a case for this property
+        zmid_ = (edges[:-1] + edges[1:]) / 2
+        if max(pairs.scale_angles(rmin, rmax, case["unit"], z, cosmo)[1].max() for z in zmid_) > 0.95 * np.pi:
+            from vlib.core import SKIPPED
+
+            return [result(SKIPPED, cls="rejected-angle>pi", nontrivial=False, counters=dict(rejected_angle_beyond_pi=1))]
         cfg = Configuration.create(rmin=rmin, rmax=rmax, unit=case["unit"], rweight=rweight, resolution=resolution,
                                    edges=edges.tolist(), closed=case["closed"],
                                    cosmology=cosmo if case["cosmology"].startswith("flcdm") else case["cosmology"])
@@ -343,7 +350,8 @@ class C01(Check):
                         lo_s, up_s = lo_s * cvec, up_s * cvec
                     # counts are differences of cumulative sums bounded by (total weight 1) x (total weight 2):
                     # rounding residues live on that scale, also in cells whose exact value is 0
-                    tol = 1e-9 * np.abs(up_s) + 1e-12 * wtot * (float(cvec.max()) if rweight is not None else 1.0)
+                    # (with separation weighting every pair is scaled by a normalised factor <= 1)
+                    tol = 1e-9 * np.abs(up_s) + 1e-12 * wtot
                     lost = arr < lo_s - tol
                     extra = arr > up_s + tol
                     counters["cells_compared"] += int(arr.size)
